@@ -541,6 +541,12 @@ func (g *genPkg) genFunc(fi *FuncInfo, specNames map[string]bool) error {
 				locals = append(locals, n)
 				continue
 			}
+			if n == "rangecount" {
+				// map range loops: the number of entries enumerated so far
+				decl = append(decl, "rangecount int")
+				locals = append(locals, n)
+				continue
+			}
 			// a local variable shadows package-level and predeclared names
 			if v := localVar(fi, n, lpos); v != nil {
 				decl = append(decl, n+" "+g.ts(v.Type()))
